@@ -83,9 +83,31 @@ func c14Run(c *Ctx) {
 	}
 	c.Bound("cost_with_all_routes", fmt.Sprint(d1))
 	c.Bound("cost_direct_only", fmt.Sprint(d2))
-	n := 0
+	// Each worker process transports ONE target type only, so that every type is also exercised in a
+	// process that never touched the others (hidden first-use state, e.g. lazy gob registration).
+	tl := []string{"operation", "parameter", "ref", "response", "schema", "swagger"}
+	myTarget, rank, count := tl[c.Shard%len(tl)], c.Shard/len(tl), 0
+	for s := 0; s < c.N || s == 0; s++ {
+		if s%len(tl) == c.Shard%len(tl) {
+			count++
+		}
+	}
+	if c.N < len(tl) {
+		myTarget = "" // too few workers: all targets in one process
+		rank, count = c.Shard, c.N
+		if count < 1 {
+			count = 1
+		}
+	}
+	c.NoShard = true
+	c.Bound("process_isolation", "one decode-target type per worker process")
+	n, seq := 0, 0
 	exec := func(cs docCase) {
-		if !c14Targets[cs.Target] {
+		if !c14Targets[cs.Target] || (myTarget != "" && cs.Target != myTarget) {
+			return
+		}
+		seq++
+		if seq%count != rank {
 			return
 		}
 		o := c14Exec(c, cs)
@@ -131,12 +153,11 @@ func c14Run(c *Ctx) {
 	}
 	extras = append(extras, docCase{Kind: "ref", Target: "ref", Doc: json.RawMessage(`{}`)})
 	for _, cs := range extras {
-		if c.Mine() {
-			c.Res.States++
-			c.Res.Nontrivial++
-			exec(cs)
-		}
+		exec(cs)
 	}
+	// states are enumerated by every worker: report each worker's share of executed documents instead
+	c.Res.States = c.Res.Evaluations
+	c.Res.Nontrivial = c.Res.Evaluations
 	c.Res.Transitions += g.transitions
 }
 
